@@ -106,3 +106,61 @@ Proof.
       repeat split; try lia. exact A3.
 Qed.
 End FilterP.
+
+(* ------------------------------------------------------------------ resample with a step stream *)
+Section ResampleTV.
+Context {A B : Type} (o : B) (n0 : nat) (idx0 thr stp one : Z) (c : nat -> bool).
+Hypothesis Hone : (0 < one)%Z.
+Hypothesis Hstp : (0 <= stp)%Z.
+
+Lemma rs_D_mono y : (rs_D idx0 thr stp one y <= rs_D idx0 thr stp one (S y))%Z.
+Proof.
+  unfold rs_D.
+  assert (((thr - idx0 - Z.of_nat (S y) * stp) / one <= (thr - idx0 - Z.of_nat y * stp) / one)%Z).
+  { apply Z.div_le_mono; [exact Hone|]. nia. }
+  lia.
+Qed.
+
+Lemma mresample_tv_safe :
+  safe c (need_resample_tv c n0 idx0 thr stp one) (@mresample_tv A B o n0 idx0 thr stp one).
+Proof.
+  exists (fun s r y =>
+    match s with
+    | VTake j => y = 0 /\ r + (if c 0 then j else 0) <= (if c 0 then n0 else 0)
+    | VGo idx => exists e : Z, (0 <= e)%Z /\
+        (Z.of_nat r <= (if c 0 then Z.of_nat n0 + e else 0) + (if c 1 then Z.of_nat y else 0))%Z /\
+        idx = (idx0 + Z.of_nat y * stp - e * one)%Z /\ ((0 < e)%Z -> (thr - one < idx)%Z)
+    | VStep idx => exists (e : Z) (y' : nat), y = S y' /\ (0 <= e)%Z /\
+        (Z.of_nat r <= (if c 0 then Z.of_nat n0 + e else 0) + (if c 1 then Z.of_nat y' else 0))%Z /\
+        idx = (idx0 + Z.of_nat y' * stp - e * one)%Z /\ ((0 < e)%Z -> (thr - one < idx)%Z)
+    | VFin => r <= need_resample_tv c n0 idx0 thr stp one (S y)
+    end).
+  split; [cbn [init mresample_tv]; destruct (c 0); lia|].
+  intros s r y HI. unfold safe_step, bump, need_resample_tv. rewrite rs_need_S.
+  destruct s as [[|j]|idx|idx|]; cbn [step mresample_tv].
+  - destruct HI as [Hy Hr]. exists 0%Z. subst y. repeat split; try lia. destruct (c 0), (c 1); lia.
+  - destruct HI as [Hy Hr]. subst y. destruct (c 0), (c 1); repeat split; try (intros _); lia.
+  - destruct HI as [e [He [Hr [Hidx Hpos]]]].
+    destruct (thr <? idx)%Z eqn:Cmp.
+    + apply Z.ltb_lt in Cmp. pose proof (rs_read_ok idx0 thr stp one Hone y e idx He Hidx Cmp) as HD.
+      split; [destruct (c 0), (c 1); lia|]. split.
+      * intros _. exists (e + 1)%Z. repeat split; try lia. destruct (c 0), (c 1); lia.
+      * destruct (c 0), (c 1); lia.
+    + apply Z.ltb_ge in Cmp.
+      assert (HE : (e <= Z.max 0 (rs_D idx0 thr stp one y))%Z).
+      { destruct (Z.eq_dec e 0) as [E0|E0]; [lia|].
+        assert (Hp : (0 < e)%Z) by lia. pose proof (rs_done_ok idx0 thr stp one Hone y e idx Hp Hidx (Hpos Hp)). lia. }
+      split; [destruct (c 0), (c 1); lia|].
+      exists e, y. repeat split; try lia.
+  - destruct HI as [e [y' [Hy [He [Hr [Hidx Hpos]]]]]]. subst y.
+    assert (HE : (e <= Z.max 0 (rs_D idx0 thr stp one (S y')))%Z).
+    { pose proof (rs_D_mono y') as HM.
+      destruct (Z.eq_dec e 0) as [E0|E0]; [lia|].
+      assert (Hp : (0 < e)%Z) by lia. pose proof (rs_done_ok idx0 thr stp one Hone y' e idx Hp Hidx (Hpos Hp)). lia. }
+    split; [destruct (c 0), (c 1); lia|]. split.
+    + intros _. exists e. repeat split; try lia.
+      * destruct (c 0), (c 1); lia.
+    + destruct (c 0), (c 1); lia.
+  - unfold need_resample_tv in HI. rewrite rs_need_S in HI. exact HI.
+Qed.
+End ResampleTV.
